@@ -175,7 +175,8 @@ pub fn emit(
     extra: serde_json::Value,
 ) {
     std::fs::create_dir_all(&args.out).unwrap();
-    let shard_size = std::env::var("VPH_SHARD").ok().and_then(|s| s.parse().ok()).unwrap_or(500usize);
+    // about two dozen shards so that the 16 parallel coqc are all busy
+    let shard_size = std::env::var("VPH_SHARD").ok().and_then(|s| s.parse().ok()).unwrap_or((cases.len() / 24).clamp(40, 500));
     let mut shards = vec![];
     for (k, chunk) in cases.chunks(shard_size).enumerate() {
         let name = format!("cases_{k}.v");
